@@ -47,7 +47,7 @@ func init() {
 		// the tag list's own Clone/MergeFrom also carry C39 ("merging replaces the list with the other's": a merged
 		// list that shares the other's backing array is changed by later edits of the other)
 		Narrow: func(o *Obligation) {
-			if strings.Contains(o.Key, "/b6.(*Tags).") || strings.Contains(o.Key, "/b6.(Tags).") {
+			if k := strings.TrimPrefix(o.Key, "CLONE-DEPTH/"); strings.HasPrefix(k, "b6.(*Tags).") || strings.HasPrefix(k, "b6.(Tags).") {
 				o.Props = []string{"C38", "C39"}
 			} else {
 				o.Props = []string{"C38"}
@@ -57,7 +57,8 @@ func init() {
 		// AreaFeature{Clone,CloneAreaFeature,MergeFrom,MergeFromAreaFeature},
 		// RelationFeature{Clone,CloneRelationFeature,MergeFrom,MergeFromRelationFeature},
 		// CollectionFeature{Clone,MergeFrom,MergeFromCollectionFeature}; b6: Tags{Clone,MergeFrom}
-		Floor: 17,
+		Floor:   17,
+		FloorBy: map[string]int{"C39": 2},
 		Doc: "for every Clone…/MergeFrom… method of an ingest.Feature implementation or of a member type it embeds, and every access path " +
 			"the feature API writes in place (depth d), the destination owns fresh storage at every level <= d " +
 			"(plain field assignment: level 0; copy of a slice of slices: level 1)",
